@@ -358,8 +358,10 @@ impl<T> Drop for Vec<T> {
         for (i, bucket) in self.buckets.iter_mut().enumerate() {
             let entries = *bucket.entries.get_mut();
 
+            // a later bucket can be allocated while an earlier one is not (e.g. after
+            // an `extend` whose iterator yielded fewer items than it reported)
             if entries.is_null() {
-                break;
+                continue;
             }
 
             let len = Location::bucket_len(i as u32);
